@@ -994,11 +994,24 @@ async fn run(prop: &'static str, _tier: Tier) {
     // asks again over the same connection, while the server is still sending
     // the rest of the first one: the second transfer is one of its own.
     PACE_MS.with(|c| c.set(*sim::pick("xfr.pace_ms", &[0u64, 0, 2, 10])));
+    // A secondary asks for the SOA first and for the transfer right behind
+    // it, on the same connection, without waiting for the first answer; and
+    // the link is slow: the messages of the transfer come 2.5 s apart - more
+    // than the timeout for plain requests (2 s), less than the one between
+    // the messages of a transfer (3 s).
+    let soa_first = !bulky && sim::chance("xfr.soa_query_first_on_the_same_connection", 1, 4);
+    if soa_first {
+        sim::stat("probe.soa_query_pipelined_ahead_of_the_transfer");
+        if sim::chance("xfr.slow_link", 1, 2) {
+            PACE_MS.with(|c| c.set(2500));
+            sim::stat("probe.transfer_messages_2500ms_apart");
+        }
+    }
 
     // (Not with an IXFR in the server's one-record-per-message packaging: the
     // stream client takes its first message for the whole response - the
     // known finding - and lets go of the id while the rest is still coming.)
-    let abandon_after = if sim::chance("xfr.abandon_first", 1, 4) && !(compat_mode && ixfr) { 1 + sim::draw("xfr.abandon_after", 2) } else { 0 };
+    let abandon_after = if !soa_first && sim::chance("xfr.abandon_first", 1, 4) && !(compat_mode && ixfr) { 1 + sim::draw("xfr.abandon_after", 2) } else { 0 };
     let abandon_pause_ms = *sim::pick("xfr.abandon_pause_ms", &[0u64, 1, 20, 150]);
     CLOSE_BEHIND_END.with(|c| c.set(!ixfr && abandon_after == 0 && sim::chance("xfr.close_behind_end", 1, 4)));
     REPACK.with(|c| c.set(!ixfr && !signed && abandon_after == 0 && mode == Mode::Quiet && !CLOSE_BEHIND_END.with(|c| c.get()) && sim::chance("xfr.repackaged", 2, 3)));
@@ -1017,15 +1030,18 @@ async fn run(prop: &'static str, _tier: Tier) {
     xst_cfg.set_idle_timeout(Duration::from_millis(if abandon_after > 0 { 10_000 } else { idle_ms }));
     // (The connection object lives in the closure: it outlives the requests.)
     type Getter = Box<dyn GetResponseMulti + Send + Sync>;
-    let send: Box<dyn Fn(PlainMulti) -> Getter> = if signed {
+    type SingleGetter = Box<dyn GetResponse + Send + Sync>;
+    let (send, send_single): (Box<dyn Fn(PlainMulti) -> Getter>, Box<dyn Fn(Plain) -> SingleGetter>) = if signed {
         let (c, t) = stream::Connection::<Signed, SignedMulti>::with_config(s, xst_cfg);
         tokio::spawn(t.run());
-        let tc = ctsig::Connection::new(key.clone(), c);
-        Box::new(move |r| SendRequestMulti::send_request(&tc, r))
+        let tc = Arc::new(ctsig::Connection::new(key.clone(), c));
+        let tc2 = tc.clone();
+        (Box::new(move |r| SendRequestMulti::send_request(&*tc, r)), Box::new(move |r| SendRequest::send_request(&*tc2, r)))
     } else {
         let (c, t) = stream::Connection::<Plain, PlainMulti>::with_config(s, xst_cfg);
         tokio::spawn(t.run());
-        Box::new(move |r| SendRequestMulti::send_request(&c, r))
+        let c2 = c.clone();
+        (Box::new(move |r| SendRequestMulti::send_request(&c, r)), Box::new(move |r| SendRequest::send_request(&c2, r)))
     };
     ev!("transfer {} {} -> {} (journal {})", if ixfr { "IXFR" } else { "AXFR" }, i, j, have_journal);
     sim::stat(if ixfr { "probe.ixfr_over_transport" } else { "probe.axfr_over_transport" });
@@ -1078,6 +1094,18 @@ async fn run(prop: &'static str, _tier: Tier) {
             } else {
                 step().await;
             }
+        }
+        // The SOA query goes first and is still outstanding when the
+        // transfer is asked for.
+        // (Kept to the end of the transfer: a request object that is
+        // dropped would let go of its place on the connection.)
+        let mut _soa_query: Option<SingleGetter> = None;
+        if soa_first {
+            let mut q = MessageBuilder::new_vec().question();
+            q.push((Name::<Vec<u8>>::from_chars("q9999-n1-s20.e2e.".chars()).unwrap(), Rtype::TXT)).unwrap();
+            let mut g = send_single(RequestMessage::new(q.into_message()).expect("request"));
+            let _ = tokio::time::timeout(Duration::ZERO, g.get_response()).await;
+            _soa_query = Some(g);
         }
         let mut getter = send(req);
         // (clean end?, error text, updater/interpreter complaint)
